@@ -75,12 +75,16 @@ func policySweep(c *Ctx, n int, invalidEvery int, allMinors bool, perPodMinors i
 	const chunk = 100
 	cat := catalogPods()
 	n += len(cat)
-	for base := 0; base < n; base += chunk {
+	extra := extraCatalogPods() // evaluated after everything else: the generated stream stays what it was
+	for base := 0; base < n+len(extra); base += chunk {
 		var ops, stdOps []J
 		var obs []evalObs
-		for i := base; i < base+chunk && i < n; i++ {
+		for i := base; i < base+chunk && i < n+len(extra); i++ {
 			var pc PodCase
-			if i < len(cat) {
+			if i >= n {
+				pc = extra[i-n]
+				c.Tag("stream.catalogExtra")
+			} else if i < len(cat) {
 				pc = cat[i]
 				c.Tag("stream.catalog")
 			} else if invalidEvery > 0 && i%invalidEvery == invalidEvery-1 {
@@ -115,7 +119,7 @@ func policySweep(c *Ctx, n int, invalidEvery int, allMinors bool, perPodMinors i
 					}
 				}
 			}
-			if i >= len(cat) && perPodMinors > 0 && perPodMinors < len(minors) {
+			if i >= len(cat) && i < n && perPodMinors > 0 && perPodMinors < len(minors) {
 				ms = nil
 				for _, k := range r.Perm(len(minors))[:perPodMinors] {
 					ms = append(ms, minors[k])
@@ -727,6 +731,21 @@ func runC14(c *Ctx) {
 			}
 			c.Eval(1)
 		}
+		// the text of one evaluation, rendered more than once (as the admission controller does when two modes share a policy):
+		// the same bytes every time, and reading the message leaves the result as it was
+		{
+			agg := policy.AggregateCheckResults(first)
+			snapshot := policy.AggregateCheckResults(first)
+			d1, r1 := agg.ForbiddenDetail(), agg.ForbiddenReason()
+			d2, r2 := agg.ForbiddenDetail(), agg.ForbiddenReason()
+			d3 := agg.ForbiddenDetail()
+			c.Eval(1)
+			if d1 != d2 || d2 != d3 || r1 != r2 || !reflect.DeepEqual(agg, snapshot) {
+				ok = false
+				c.Violate(Finding{Desc: "rendering the message of one evaluation twice gives different text (or changes the result it is rendered from)", Key: "message-not-stable",
+					Input: J{"level": lvl, "minor": m, "pod": cp}, Go: J{"detailFirst": trunc(d1, 600), "detailSecond": trunc(d2, 600), "reasonFirst": r1, "reasonSecond": r2}})
+			}
+		}
 		for rep := 0; rep < 8; rep++ {
 			again := ev.EvaluatePod(lv, &p.ObjectMeta, &p.Spec)
 			c.Eval(1)
@@ -833,6 +852,7 @@ func switchProbe(ev *recEvaluator) bool {
 
 func runC19(c *Ctx) {
 	runC19Admission(c)
+	defer c19SwitchSurvivesOtherCalls(c)
 	n := 1500
 	if c.Thorough {
 		n = 20000
